@@ -19,7 +19,7 @@ pub fn features(q: &Query, t: &Table, layout: &Layout) -> Vec<String> {
     };
     let nullable = |c: usize| has_nulls(t, c);
     let nullable_expr = |e: &Expr| e.cols().iter().any(|c| nullable(*c));
-    let partial = |c: usize| all_null_in_some_batch(t, c, &layout.batches);
+    let partial = |c: usize| all_null_in_some_batch(t, c, &layout.partitions());
     for e in q.exprs() {
         for c in e.cols() {
             if partial(c) {
@@ -177,4 +177,233 @@ pub fn short(o: &QOut) -> String {
         other => format!("{:?}", other),
     };
     s.chars().take(600).collect()
+}
+
+// ---- attribution of a failure to a minimal query ----------------------------------------------------
+
+fn bool_subtrees(e: &Expr, out: &mut Vec<Expr>) {
+    match e {
+        Expr::And(l, r) | Expr::Or(l, r) => {
+            out.push((**l).clone());
+            out.push((**r).clone());
+            bool_subtrees(l, out);
+            bool_subtrees(r, out);
+        }
+        Expr::Not(x) => {
+            out.push((**x).clone());
+            bool_subtrees(x, out);
+        }
+        _ => {}
+    }
+}
+
+fn simpler(q: &Query) -> Vec<Query> {
+    let mut v = vec![];
+    if let Some(f) = &q.filter {
+        let mut q2 = q.clone();
+        q2.filter = None;
+        v.push(q2);
+        let mut subs = vec![];
+        bool_subtrees(f, &mut subs);
+        subs.sort_by_key(|e| e.sx().to_string().len());
+        for s in subs {
+            let mut q2 = q.clone();
+            q2.filter = Some(s);
+            v.push(q2);
+        }
+    }
+    if q.limit.is_some() {
+        let mut q2 = q.clone();
+        q2.limit = None;
+        v.push(q2);
+    }
+    if q.offset > 0 {
+        let mut q2 = q.clone();
+        q2.offset = 0;
+        q2.explicit_offset = false;
+        v.push(q2);
+    }
+    for i in 0..q.order.len() {
+        let mut q2 = q.clone();
+        q2.order.remove(i);
+        v.push(q2);
+    }
+    if q.select.len() > 1 {
+        for i in 0..q.select.len() {
+            // an item referenced by ORDER BY stays
+            if q.order.iter().any(|(k, _)| matches!(k, OKey::Out(j) if *j == i)) {
+                continue;
+            }
+            let mut q2 = q.clone();
+            q2.select.remove(i);
+            for (k, _) in q2.order.iter_mut() {
+                if let OKey::Out(j) = k {
+                    if *j > i {
+                        *j -= 1;
+                    }
+                }
+            }
+            if q2.is_agg() != q.is_agg() && q.is_agg() {
+                continue; // keep it an aggregate query
+            }
+            v.push(q2);
+        }
+    }
+    // simplify arithmetic / aggregate arguments: replace `x op k` by `x`
+    v
+}
+
+/// Greedy delta-debugging over the query: the smallest query (under `simpler`) that still fails on
+/// this table and layout. At most `budget` engine runs.
+pub fn failure_key(j: &Judged) -> String {
+    match &j.verdict {
+        Ok(()) => String::new(),
+        Err(reason) => match &j.out {
+            QOut::Rows(_) => "mismatch".to_string(),
+            QOut::Err(k, _) if k == "overflow" => format!("mismatch:{}", reason.split(':').next().unwrap_or("")),
+            other => other.signature(),
+        },
+    }
+}
+
+pub fn minimize(table: &Table, layout: &Layout, q: &Query, cache: &mut Option<Db>, budget: usize) -> (Query, Judged) {
+    let mut cur = q.clone();
+    let mut cur_j = run_and_judge(table, layout, &cur, cache);
+    let key = failure_key(&cur_j);
+    let mut runs = 1;
+    'outer: loop {
+        for cand in simpler(&cur) {
+            if runs >= budget {
+                break 'outer;
+            }
+            runs += 1;
+            let j = run_and_judge(table, layout, &cand, cache);
+            if j.verdict.is_err() && failure_key(&j) == key {
+                cur = cand;
+                cur_j = j;
+                continue 'outer;
+            }
+        }
+        break;
+    }
+    (cur, cur_j)
+}
+
+/// structural description of a (minimal) query: the bucket of a failure
+pub fn describe(q: &Query, t: &Table, layout: &Layout) -> String {
+    let col = |c: usize| -> String {
+        let k = match t.cols[c].kind {
+            Kind::Int => "int",
+            Kind::Float => "float",
+            Kind::Str => "str",
+        };
+        let n = if all_null_in_some_batch(t, c, &layout.partitions()) {
+            "~"
+        } else if has_nulls(t, c) {
+            "?"
+        } else {
+            ""
+        };
+        format!("{}{}", k, n)
+    };
+    fn go(e: &Expr, col: &dyn Fn(usize) -> String, t: &Table, layout: &Layout, ctx: Option<usize>) -> String {
+        match e {
+            Expr::Col(c) => col(*c),
+            Expr::Const(V::Int(k)) => if k.unsigned_abs() >= 1 << 62 { "K".into() } else { "k".into() },
+            Expr::Const(V::Str(s)) => {
+                // is the string absent from the dictionary of some batch of the column it is compared with?
+                let absent = ctx.map_or(false, |c| {
+                    let mut start = 0;
+                    let mut a = layout.batches.is_empty();
+                    for len in &layout.partitions() {
+                        if !t.cols[c].cells[start..start + len].iter().any(|v| matches!(v, V::Str(x) if x == s)) {
+                            a = true;
+                        }
+                        start += len;
+                    }
+                    a
+                });
+                if absent { "k!".into() } else { "k".into() }
+            }
+            Expr::Const(_) => "k".into(),
+            Expr::Arith(op, l, r) => format!("({} {} {})", go(l, col, t, layout, None), op, go(r, col, t, layout, None)),
+            Expr::Cmp(op, l, r) => {
+                let cl = if let Expr::Col(c) = &**l { Some(*c) } else { None };
+                let cr = if let Expr::Col(c) = &**r { Some(*c) } else { None };
+                let sym = if matches!(*op, "eq" | "ne") { "=" } else { "<" };
+                format!("({} {} {})", go(l, col, t, layout, cr), sym, go(r, col, t, layout, cl))
+            }
+            Expr::And(l, r) => format!("({} AND {})", go(l, col, t, layout, None), go(r, col, t, layout, None)),
+            Expr::Or(l, r) => format!("({} OR {})", go(l, col, t, layout, None), go(r, col, t, layout, None)),
+            Expr::Not(x) => format!("NOT {}", go(x, col, t, layout, None)),
+            Expr::IsNull(x) => format!("{} IS NULL", go(x, col, t, layout, None)),
+            Expr::IsNotNull(x) => format!("{} IS NOT NULL", go(x, col, t, layout, None)),
+            Expr::Like(x, _) => format!("{} LIKE p", go(x, col, t, layout, None)),
+        }
+    }
+    let d = |e: &Expr| go(e, &col, t, layout, None);
+    let mut s = format!(
+        "SELECT {}",
+        q.select
+            .iter()
+            .map(|x| match x {
+                Sel::Plain(e) => d(e),
+                Sel::Agg(k, e) => format!("{}({})", k, d(e)),
+                Sel::Avg(e) => format!("avg({})", d(e)),
+            })
+            .collect::<Vec<_>>()
+            .join(",")
+    );
+    if let Some(f) = &q.filter {
+        s.push_str(&format!(" WHERE {}", d(f)));
+    }
+    if !q.order.is_empty() {
+        s.push_str(" ORDER ");
+        s.push_str(
+            &q.order
+                .iter()
+                .map(|(k, desc)| {
+                    format!(
+                        "{}{}",
+                        match k {
+                            OKey::Expr(e) => d(e),
+                            OKey::Out(i) => format!("#{}", i),
+                        },
+                        if *desc { " desc" } else { "" }
+                    )
+                })
+                .collect::<Vec<_>>()
+                .join(","),
+        );
+    }
+    if let Some(l) = q.limit {
+        let lim = l.saturating_add(q.offset) as usize;
+        let topn = q.order.len() == 1 && layout.partitions().iter().any(|b| lim < b / 2);
+        s.push_str(if topn { " LIMIT<half" } else { " LIMIT" });
+    }
+    if q.offset > 0 {
+        s.push_str(if q.offset as usize > t.nrows() { " OFFSET>n" } else { " OFFSET" });
+    }
+    s
+}
+
+/// Outcome of a case with failure attribution: when the reference rejects the engine's answer the
+/// query is minimised and the bucket is `<failure>|<shape of the minimal failing query>`.
+pub fn outcome_attributed(table: &Table, layout: &Layout, q: &Query, j: &Judged, cache: &mut Option<Db>, extra_why: &str) -> Outcome {
+    let mut o = outcome(table, q, j, extra_why);
+    if j.verdict.is_err() {
+        let (mq, mj) = minimize(table, layout, q, cache, 40);
+        let reason = mj.verdict.as_ref().err().cloned().unwrap_or_default();
+        let tag = reason.split(':').next().unwrap_or("mismatch").to_string();
+        let failure = match &mj.out {
+            QOut::Rows(_) => format!("mismatch:{}", tag),
+            QOut::Err(k, _) if k == "overflow" => format!("mismatch:{}", tag),
+            other => other.signature(),
+        };
+        o.signature = Some(format!("{}|{}", failure, describe(&mq, table, layout)));
+        if let Some(msg) = o.oracle.as_mut() {
+            msg.push_str(&format!("; minimal failing query `{}` -> {}", mq.sql(table), short(&mj.out)));
+        }
+    }
+    o
 }
